@@ -210,3 +210,61 @@ pub fn graph_scenario(idx: usize, rng: &mut Rng, o: &GraphOpts, family: &str) ->
     let _ = BTreeMap::<u8, u8>::new();
     w
 }
+
+/// C01: writers produce a conflict-rich history, then several fresh readers receive the same
+/// set of changes in different orders, batchings and through different ingestion paths.
+pub fn converge_scenario(idx: usize, rng: &mut Rng, o: &GraphOpts, family: &str, readers: usize) -> World {
+    let mut w = graph_scenario(idx, rng, o, family);
+    if w.dead {
+        return w;
+    }
+    let all: Vec<String> = w.known.keys().cloned().collect();
+    if all.is_empty() {
+        return w;
+    }
+    let mut next_actor = 10u8;
+    for k in 0..readers {
+        if w.dead {
+            break;
+        }
+        let r = w.add_rep(next_actor);
+        next_actor += 1;
+        match k % 4 {
+            0 | 1 => {
+                // random order, random batches, random path per batch, occasional duplicates
+                let mut order = all.clone();
+                rng.shuffle(&mut order);
+                let mut i = 0;
+                while i < order.len() {
+                    let n = 1 + rng.below(4.min(order.len() - i));
+                    let mut batch: Vec<String> = order[i..i + n].to_vec();
+                    if rng.chance(1, 5) {
+                        batch.push(order[rng.below(order.len())].clone());
+                    }
+                    let via = *rng.pick(&["apply", "batch", "each", "loadinc"]);
+                    w.deliver(r, via, &batch);
+                    i += n;
+                }
+            }
+            2 => {
+                // everything in one batch
+                let mut order = all.clone();
+                rng.shuffle(&mut order);
+                let via = *rng.pick(&["apply", "loadinc"]);
+                w.deliver(r, via, &order);
+            }
+            _ => {
+                // merges from every writer in random order
+                let mut ws: Vec<usize> = (0..r).collect();
+                rng.shuffle(&mut ws);
+                for s in ws {
+                    w.merge(r, s);
+                }
+            }
+        }
+        if rng.chance(1, 3) {
+            w.save_load(r, rng.chance(1, 2), true);
+        }
+    }
+    w
+}
